@@ -601,6 +601,19 @@ where
         Ok(())
     }
 
+    /// A draining worker (left over from a pool shrink) that has nothing left to do is stopped
+    /// and dropped, exactly as when it reports its last job finished.
+    fn drop_worker_if_drained(&mut self, wid: WorkerId) {
+        if matches!(self.pool.get(&wid), Some(w) if w.is_draining && !w.is_working()) {
+            if let Some(w) = self.pool.remove(&wid) {
+                self.worker_by_actor.remove(&w.actor.get_id());
+                self.router.on_worker_availability_change(wid, false);
+                tracing::trace!("Stopping worker {}", w.wid);
+                w.actor.stop(None);
+            }
+        }
+    }
+
     fn worker_pong(&mut self, wid: usize, time: Duration) {
         let discard_limit = self
             .discard_settings
@@ -1049,6 +1062,9 @@ where
                     if matches!(state.pool.get(&wid), Some(w) if w.is_available()) {
                         state.router.on_worker_availability_change(wid, true);
                     }
+                    // the dead worker may have been draining after a pool shrink: its replacement
+                    // only exists to work off what was queued for the slot
+                    state.drop_worker_if_drained(wid);
                 }
             }
             SupervisionEvent::ActorFailed(who, reason) => {
@@ -1086,6 +1102,9 @@ where
                     if matches!(state.pool.get(&wid), Some(w) if w.is_available()) {
                         state.router.on_worker_availability_change(wid, true);
                     }
+                    // the dead worker may have been draining after a pool shrink: its replacement
+                    // only exists to work off what was queued for the slot
+                    state.drop_worker_if_drained(wid);
                 }
             }
             _ => {}
